@@ -2,7 +2,7 @@
 from props import _core, _api
 
 LEVEL = "proof"
-LEAN_MODULES = ["Props.C02", "Props.C02sqrt", "Props.C02sum"]
+LEAN_MODULES = ["Props.C02", "Props.C02sqrt", "Props.C02sum", "Props.C02special"]
 OPS = ["normalize", "normalize1", "from_man_exp", "from_int", "pos", "neg", "abs", "add", "sub", "mul", "gmul", "div",
        "mul_int", "gmul_int", "rdiv_int", "from_rational", "sqrt", "sum"]
 ASSUMPTIONS = ["bitcount/trailing/isqrt are modelled by their mathematical meaning; the float-seeded Python helpers are tied by "
